@@ -67,7 +67,8 @@ def energy_spectra(
             )
         else:
             log_e_nu = np.reciprocal(mp) * np.log10(u * (b**mp - a**mp) + a**mp)
-        return log_e_nu
+        # rounding at the ends of the unit interval must not leave the bounds
+        return np.clip(log_e_nu, spectra.lower_bound, spectra.upper_bound)
 
     if isinstance(spectra, Callable):
         return spectra(*args, size=N, **kwargs)
